@@ -31,7 +31,8 @@ LEVEL = "exploration"
 RULE = (
     "initial rows (1-3 parents, 0-4 children, 0-2 tags + links); history of 3-25 ops: hold(obj), add Parent/Child, set scalar, delete, re-parent via "
     "many-to-one or via the collection, toggle a many-to-many link, drop a drawn subset of / all harness references, gc.collect(), throw-away query, "
-    "flush[, gc first], commit[, gc first]; autoflush x expire_on_commit drawn. Non-trivial: at a gc point at least one object with pending state "
+    "flush[, gc first], commit[, gc first], and 'fault': an attribute set while no transaction is begun that fails in the middle of the change event (autobegin=False -> documented "
+    "InvalidRequestError; else a raising after_transaction_create listener), followed by begin() and the repeated assignment; autoflush x expire_on_commit x autobegin drawn. Non-trivial: at a gc point at least one object with pending state "
     "(new / deleted / net-modified) is referenced by nobody but the session (not held and not reachable from a held object); distinct = canonical JSON of the program"
 )
 ASSUMPTIONS = [
@@ -46,6 +47,19 @@ ASSUMPTIONS = [
 
 NAMES = ["a", "b", "c"]
 RELS = {"parent": ("children", "tags", "owner"), "child": ("parent", "grandchildren"), "tag": ()}
+
+
+class _ListenerFault(Exception):
+    """raised by the harness' own after_transaction_create listener (a fault in the middle of an attribute change event)"""
+
+
+def _try_set(obj, attr, val):
+    """obj.attr = val; returns None or (exception class name, message) - nothing of the exception survives this frame"""
+    try:
+        setattr(obj, attr, val)
+    except Exception as e:  # noqa: BLE001 - classified by the caller
+        return (type(e).__name__, str(e))
+    return None
 
 
 class _Run:
@@ -66,7 +80,19 @@ class _Run:
         F.raw_insert(self.rc, "child", [dict(id=k, parent_id=v[0], name=v[1], x=v[2]) for k, v in self.child.items()])
         F.raw_insert(self.rc, "tag", [dict(id=k, name=v[0]) for k, v in self.tag.items()])
         F.raw_insert(self.rc, "parent_tag", [dict(parent_id=a, tag_id=b) for a, b in sorted(self.links)])
-        self.sess = Session(self.eng, autoflush=self.autoflush, expire_on_commit=case["cfg"]["eoc"])
+        self.autobegin = case["cfg"].get("autobegin", True)
+        self.sess = Session(self.eng, autoflush=self.autoflush, expire_on_commit=case["cfg"]["eoc"], autobegin=self.autobegin)
+        self.need_begin = not self.autobegin  # autobegin=False: the application begins every transaction itself
+        self.armed = False
+        if self.autobegin:
+            from sqlalchemy import event
+
+            def _after_transaction_create(session, transaction, _run=self):
+                if _run.armed:
+                    _run.armed = False
+                    raise _ListenerFault()
+
+            event.listen(self.sess, "after_transaction_create", _after_transaction_create)
         self.held = {}  # ident -> object: THE ONLY place where the harness keeps mapped objects
         self.wr = {}  # ident -> [weakref, ...] every incarnation the harness ever saw
         self.new = set()
@@ -427,11 +453,57 @@ class _Run:
             raise Violation("C48/query/ids", f"throw-away query on {kind} returned ids {got}, expected {exp} (autoflush={self.autoflush})", observed=got, expected=exp)
         self.classes.add("query")
 
+    def ensure_begun(self):
+        if self.need_begin:
+            self.sess.begin()
+            self.need_begin = False
+
+    def op_fault(self, kind, idx, attr_i, v):
+        """attribute change while no transaction is begun, with a fault in the middle of the change event: autobegin=False ->
+        the documented InvalidRequestError; otherwise a raising after_transaction_create listener.  The application then begins
+        (if needed) and repeats the assignment, which must be tracked like any other pending change."""
+        from sqlalchemy.orm.util import identity_key
+
+        ids = [k for k in self.live(kind) if (kind, k) not in self.new]
+        no_txn = self.need_begin if not self.autobegin else not self.sess.in_transaction()
+        cand = [k for k in ids if (kind, k) in self.held or self.sess.identity_map.get(identity_key(self.cls(kind), k)) is not None]
+        if not no_txn or not cand or self.netmod() or self.new or self.deleted:
+            self.classes.add("fault-not-applicable")
+            self.ensure_begun()
+            return self.op_set(kind, idx, attr_i, v)
+        k = cand[idx % len(cand)]
+        attr, col = ([("name", 0), ("x", 1), ("y", 2)] if kind == "parent" else [("name", 1), ("x", 2), ("x", 2)])[attr_i % 3]
+        cur = self.table(kind)[k][col]
+        val = NAMES[(NAMES.index(cur) + 1 + v % 2) % 3] if attr == "name" else (cur or 0) + 1 + v  # a net change
+        if self.autobegin:
+            self.armed = True
+        err = _try_set(self.obtain((kind, k)), attr, val)
+        self.armed = False
+        if not self.autobegin:
+            if err is None or err[0] != "InvalidRequestError" or "Autobegin is disabled" not in err[1]:
+                raise Violation("C48/fault/set-without-transaction-did-not-raise", f"autobegin=False, no transaction: {kind}#{k}.{attr} = {val!r} gave {err}", observed=err, expected="InvalidRequestError: Autobegin is disabled")
+            self.sess.begin()
+            self.need_begin = False
+            self.classes.add("fault-autobegin-disabled")
+        else:
+            if err is None or err[0] != "_ListenerFault":
+                raise Violation("C48/fault/listener-not-reached", f"attribute set without a transaction did not run after_transaction_create: {err}", observed=err)
+            self.classes.add("fault-listener-raises")
+        err = _try_set(self.obtain((kind, k)), attr, val)
+        if err is not None:
+            raise Violation("C48/fault/repeated-set-failed", f"repeating {kind}#{k}.{attr} = {val!r} after the fault raised {err}", observed=err)
+        self.table(kind)[k][col] = val
+        self.direct[kind].setdefault(k, list(self.table(kind)[k]))[col] = val
+        self.touched.add((kind, k))
+        self.classes.add("fault-during-change-event")
+
     def op_flush(self, with_gc, commit):
+        self.ensure_begun()
         if with_gc:
             self.check_liveness("gc before " + ("commit" if commit else "flush"))
         if commit:
             self.sess.commit()
+            self.need_begin = not self.autobegin
             if self.case["cfg"]["eoc"]:
                 self.stale_parent.clear()
         else:
@@ -449,7 +521,11 @@ class _Run:
     def go(self):
         for op in self.case["ops"]:
             k = op[0]
-            if k == "hold":
+            if k not in ("fault", "drop", "gc"):
+                self.ensure_begun()
+            if k == "fault":
+                self.op_fault(["parent", "child"][op[1] % 2], op[2], op[3], op[4])
+            elif k == "hold":
                 self.op_hold(["parent", "child", "tag"][op[1] % 3], op[2])
             elif k == "add":
                 self.op_add(["parent", "child"][op[1] % 2], op[2], op[3], op[4])
@@ -508,7 +584,7 @@ _opt = st.one_of(st.none(), st.integers(0, 3))
 def _programs(draw):
     n_p = draw(st.integers(1, 3))
     case = {
-        "cfg": {"autoflush": draw(st.booleans()), "eoc": draw(st.booleans())},
+        "cfg": {"autoflush": draw(st.booleans()), "eoc": draw(st.booleans()), "autobegin": draw(st.sampled_from([True, False, True, False, True]))},
         "parents": [[draw(st.integers(0, 2)), draw(_v), draw(_v)] for _ in range(n_p)],
         "children": [[draw(_opt), draw(st.integers(0, 2)), draw(_v)] for _ in range(draw(st.integers(0, 4)))],
         "n_t": draw(st.integers(0, 2)),
@@ -516,8 +592,19 @@ def _programs(draw):
     }
     ops = []
     for _ in range(draw(st.integers(3, 25))):
-        k = draw(st.sampled_from(["hold", "hold", "add", "add", "set", "set", "set", "set", "del", "move", "move", "tag", "drop", "drop", "dropall", "gc", "gc", "q", "flush", "commit"]))
-        if k == "hold":
+        k = draw(st.sampled_from(["hold", "hold", "add", "add", "set", "set", "set", "set", "del", "move", "move", "tag", "drop", "drop", "dropall", "gc", "gc", "q", "flush", "commit", "fault", "FM", "FM"]))
+        if k == "FM":
+            # motif: keep an object, end the transaction, change it while no transaction is begun (fault + retry), let go of it, collect
+            kind, idx = draw(st.integers(0, 1)), draw(_i)
+            ops.append(["hold", kind, idx])
+            ops.append(["commit", draw(st.integers(0, 1))])
+            ops.append(["fault", kind, idx, draw(st.integers(0, 2)), draw(_v)])
+            ops.append(["drop", None])
+            if draw(st.booleans()):
+                ops.append(["gc"])
+        elif k == "fault":
+            ops.append([k, draw(st.integers(0, 1)), draw(_i), draw(st.integers(0, 2)), draw(_v)])
+        elif k == "hold":
             ops.append([k, draw(st.integers(0, 2)), draw(_i)])
         elif k == "add":
             ops.append([k, draw(st.integers(0, 1)), draw(st.integers(0, 5)), draw(_v), draw(_opt)])
@@ -544,4 +631,4 @@ def _programs(draw):
 
 
 def subs(tier):
-    return [Generated("histories", check, strategy=_programs(), quick=1500, thorough=60000)]
+    return [Generated("histories", check, strategy=_programs(), quick=1000, thorough=60000)]
